@@ -236,7 +236,7 @@ def t_COMMENT(t):
 
 def t_MCOMMENT(t):
     r'/\*(.|\n)*?\*/'
-    t.lineno += t.value.count('\n')
+    t.lexer.lineno += t.value.count('\n')
     return  # discard token
 
 # These simple tokens must also be defined as functions, in order to control
@@ -2132,12 +2132,8 @@ def _find_column(input_, token):
     current line by finding the previous EOL.
     """
     lexpos = _lexpos(token)
-    i = lexpos
-    while i > 0:
-        if input_[i] == '\n':
-            break
-        i -= 1
-    column = max(lexpos - i - 1, 0)
+    line_start = input_.rfind('\n', 0, lexpos) + 1  # 0 if on the first line
+    column = lexpos - line_start + 1  # 1-based
     return column
 
 
@@ -2148,31 +2144,27 @@ def _get_error_context(input_, token):
         and for the length defined by the lexer position and token length
     """
     lexpos = _lexpos(token)
-    try:
-        line = input_[lexpos: input_.index('\n', lexpos)]
-    except ValueError:
-        line = input_[lexpos]
-
-    i = max(input_.rfind('\n', 0, lexpos), 0)
-    line = input_[i:lexpos] + line
-    lines = [line.strip('\r\n')]
-    col = lexpos - i
+    line_start = input_.rfind('\n', 0, lexpos) + 1  # 0 if on the first line
+    line_end = input_.find('\n', lexpos)
+    if line_end < 0:  # last line without newline
+        line_end = len(input_)
+    line = input_[line_start:line_end]
+    lines = [line.rstrip('\r')]
+    i = line_start - 1  # index of the newline before the line, or -1
     while len(lines) < 5 and i > 0:
         end = i
-        i = max(input_.rfind('\n', 0, i), 0)
-        lines.insert(0, input_[i:end].strip('\r\n'))
+        i = input_.rfind('\n', 0, end)
+        lines.insert(0, input_[i + 1:end].rstrip('\r'))
     pointer = ''
     for dummy_ch in str(_value(token)):
         pointer += '^'
     pointline = ''
-    i = 0
-    while i < col - 1:
-        if lines[-1][i].isspace():
-            pointline += lines[-1][i]
+    for ch in line[:lexpos - line_start]:
+        if ch.isspace():
+            pointline += ch
             # otherwise, tabs complicate the alignment
         else:
             pointline += ' '
-        i += 1
     lines.append(pointline + pointer)
     return lines
 
